@@ -480,10 +480,15 @@ def main():
         bad_idx = sorted(set(dis) | set(mon))
         reported = set()
         reproduced_known = set()
+        shrinks = 0
         for i in bad_idx[:40]:
             c = cases[i]
             want = "mon" if i in mon else "any"
-            small = shrink(P, binp, c, workdir, want) if len(reported) < 3 else c
+            if len(reported) < 3 and shrinks < 6:
+                small = shrink(P, binp, c, workdir, want)
+                shrinks += 1
+            else:
+                small = c
             k = match_known(P, small, known) or match_known(P, c, known)
             if k:
                 reproduced_known.add(k["id"])
